@@ -1,7 +1,7 @@
 """Generators for deb822-like texts (shared by C05, C07, C10, C11, C12)."""
 import itertools
 
-LINE_KINDS = ['A: v', 'A:', 'Licence: x', ' c', '\tc', ' .', '', '  ', '\x0c', 'junk', 'a\x0cb: v']
+LINE_KINDS = ['A: v', 'A:', 'Licence: x', ' c', '\tc', ' .', '', '  ', '\x0c', 'junk', 'a\x0cb: v', ' k: v', '# c']
 TERMS = ['\n', '\r\n', '\r']
 
 
@@ -31,10 +31,26 @@ def exhaustive(max_lines, rng=None, sample=1):
                 yield render(combo, rng)
 
 
+EDGE_CHARS = ['\ufeff', '\u200b', '\xa0', '\u2028', '\x85', '\x0c', '\x00', '\u0301', '\x1c', '\x0b', ' ', '\t', '\r', '\ufffe', '\u2060']
+
+
+def edge_sweep(max_lines=2):
+    """an invisible or white-space character before the first and after the last character of every short text
+    (a byte-order mark, a zero-width space, a line separator...: what a reader may be tempted to drop)"""
+    for t in exhaustive(max_lines):
+        for ch in EDGE_CHARS:
+            yield ch + t
+            yield t + ch
+            if t.endswith('\n'):
+                yield t[:-1] + ch + '\n'
+
+
 VOCAB = ['Files: *', 'Copyright: 2001 Foo', 'License: GPL-2+', 'License:', 'Licence: MIT', 'Comment: x y', 'Format: https://www.debian.org/doc/packaging-manuals/copyright-format/1.0/',
          'Source: http://x:80/y', ' text line', '  verbatim', ' .', ' .x', '', ' ', '\t', 'free text here', 'From me', 'Unknown: u', 'unknown-x: 2001 Foo Bar',
          'License-1: a', 'Files-1-1: q', 'Extra-Data: x', 'Line-Numbers-By-Field: y', 'X_Foo: bar', '2a: b', ':', 'a:b:c', 'İx: 1', 'Kelvin: k', 'a b', 'p\x0cq',
-         '　 ideographic', '\x0b', 'tab\tinside', 'Upstream-Name: n', 'Upstream-Contact: a\n b', 'Files-Excluded: a b', 'Disclaimer: d', 'Format-Specification: f']
+         '　 ideographic', '\x0b', 'tab\tinside', 'Upstream-Name: n', 'Upstream-Contact: a\n b', 'Files-Excluded: a b', 'Disclaimer: d', 'Format-Specification: f',
+         '# package was debianized by', '#', '#x: y', ' # indented hash', 'Upstream-Contact: John Doe <john@example.org>, Jane Roe <jane@example.org>', 'Upstream-Contact: "Doe, John" <jd@x.org> (remark)',
+         ' Jane <jane@x.org> ,', 'Upstream-Contact: unclosed <a@b']
 
 
 def random_text(rng, max_lines=12):
